@@ -65,6 +65,7 @@ PROFILES = {
                          st.just(["nan"]), st.integers(-2, 3).map(lambda n: ["i", n])),
     # a class with only __lt__ plus functools.total_ordering and identity equality (ties: a > b and b > a)
     "ltonly": st.integers(0, 3).map(lambda k: ("LT", k)),
+    "ltpure": st.integers(0, 2).map(lambda k: ("LTP", k)),
     # mixed truthiness; occasionally a data item that is itself awaitable (must never be awaited)
     "truthy": st.one_of(K, K, TRUTHY_PRIMS, TRUTHY_PRIMS, TRUTHY_PRIMS, st.just(("AW",)), SPECIAL_ITEMS),
     "num": st.one_of(NUM_PRIMS, NUM_PRIMS, NUM_PRIMS, K,
@@ -110,6 +111,9 @@ class Uids:
         if isinstance(v, tuple) and v and v[0] == "LT":
             self.n += 1
             return ["L", v[1], self.n - 1]
+        if isinstance(v, tuple) and v and v[0] == "LTP":
+            self.n += 1
+            return ["LP", v[1], self.n - 1]
         if isinstance(v, tuple) and v and v[0] == "EQ":
             self.n += 1
             return ["E", self.n - 1]
